@@ -196,6 +196,7 @@ template <class G> void c08(Reporter &R, const std::string &cls, const GraphSpec
     // operator<< is defined on every shape as well
     std::ostringstream os;
     os << b.g;
+    R.digest(os.str() + snapshot(b.g));
 }
 
 // ---------------------------------------------------------------- C09
@@ -349,7 +350,10 @@ template <class G> void c09(Reporter &R, const std::string &cls, const GraphSpec
             std::string before = snapshot(b.g);
             if (!eq3(c, b.g) || !eq3(a, b.g)) e = "copy: copy-constructed / assigned graph != source";
             if (e.empty()) {
-                if (s.n > 0 && r.chance(1, 2)) c.addEdge(r.u(s.n), r.u(s.n), lab(424242), true);
+                if (s.n > 0 && r.chance(1, 2)) {
+                    VertexIndex ca = r.u(s.n), cb = r.u(s.n);
+                    c.addEdge(ca, cb, lab(424242), true);
+                }
                 else c.resize(s.n + 1);
                 a.clearEdges();
                 a.resize(s.n + 2);
